@@ -1,4 +1,4 @@
-(** TierBridge.v — the Tier-A / Tier-B agreement (DESIGN 5.6) as theorems, for the primitives.
+(** TierBridgeLemmas.v — the Tier-A / Tier-B agreement (DESIGN 5.6) as theorems, for the primitives.
 
     Tier B (PatchDefs.v, MergeDefs.v: JSON Patch / Merge Patch over [Tree.node] with ordered member lists)
     PRESUPPOSES that the primitives it calls behave like list functions on the member list.  Tier A proves
@@ -709,3 +709,127 @@ Section SortBridge.
     - by rewrite (find_tree_set_children p d cs _ F Hp).
   Qed.
 End SortBridge.
+
+(** * 7. the Tier-B models call exactly these primitives *)
+(** PatchDefs.v writes the primitives inline; the two functions that edit the document are, literally, the
+    control flow below around the [v_*] primitives of TierBridgeDefs.v *)
+Theorem detach_path_uses object path cs :
+  PatchDefs.detach_path object path cs =
+  match PatchDefs.last_slash path 0 None with
+  | None => Ok None
+  | Some i =>
+      let child_raw := skipn (S i) path in
+      match PointerDefs.get_item_from_pointer object (firstn i path) cs with
+      | None => Ok None
+      | Some pp =>
+          match Tree.subtree object pp with
+          | None => Ok None
+          | Some par =>
+              if Tree.is_array par then
+                match PointerDefs.decode_array_index_from_pointer child_raw with
+                | None => Ok None
+                | Some idx =>
+                    Ok (match v_detach_from_array par idx with
+                        | None => None
+                        | Some (it, par') => Some (it, PatchDefs.put_subtree object pp par')
+                        end)
+                end
+              else if Tree.is_object par then
+                buf <- PatchDefs.decode_pointer_inplace (child_raw ++ [0]) ;;
+                Ok (match v_detach_from_object par (cstr buf) cs with
+                    | None => None
+                    | Some (it, par') => Some (it, PatchDefs.put_subtree object pp par')
+                    end)
+              else Ok None
+          end
+      end
+  end.
+Proof.
+  unfold PatchDefs.detach_path. destruct (PatchDefs.last_slash path 0 None) as [i|]; [|done]. cbv zeta.
+  destruct (PointerDefs.get_item_from_pointer object (firstn i path) cs) as [pp|]; [|done].
+  destruct (Tree.subtree object pp) as [par|]; [|done].
+  destruct (Tree.is_array par).
+  - destruct (PointerDefs.decode_array_index_from_pointer (skipn (S i) path)) as [idx|]; [|done].
+    unfold v_detach_from_array. by destruct (PointerDefs.nth_z (Tree.n_children par) idx).
+  - destruct (Tree.is_object par); [|done].
+    destruct (PatchDefs.decode_pointer_inplace (skipn (S i) path ++ [0])) as [buf| |]; cbn [bind]; [|done|done].
+    unfold v_detach_from_object. by destruct (CompareDefs.get_object_item par (Some (cstr buf)) cs) as [[j it]|].
+Qed.
+
+Lemma v_delete_then_add par child value cs :
+  v_add_to_object (v_delete_from_object par child cs) child value =
+  PatchDefs.set_children par (v_delete_members par child cs ++ [PatchDefs.keyed value child]).
+Proof. unfold v_add_to_object, v_delete_from_object. by destruct par. Qed.
+
+Theorem finish_add_uses object value pstr cs :
+  PatchDefs.finish_add object value pstr cs =
+  match pstr with
+  | [] => Ok (0, PatchDefs.set_key value None)       (* overwrite_item: deviation D2, no core primitive *)
+  | _ =>
+      match PatchDefs.last_slash pstr 0 None with
+      | None => Ok (9, object)
+      | Some i =>
+          let child_raw := skipn (S i) pstr in
+          match PointerDefs.get_item_from_pointer object (firstn i pstr) cs with
+          | None => Ok (9, object)
+          | Some pp =>
+              match Tree.subtree object pp with
+              | None => Ok (9, object)
+              | Some par =>
+                  if Tree.is_array par then
+                    if strcmp child_raw PatchDefs.s_dash =? 0 then
+                      Ok (0, PatchDefs.put_subtree object pp (v_add_to_array par value))
+                    else
+                      match PointerDefs.decode_array_index_from_pointer child_raw with
+                      | None => Ok (11, object)
+                      | Some idx =>
+                          match v_insert_in_array par idx value with
+                          | None => Ok (10, object)
+                          | Some par' => Ok (0, PatchDefs.put_subtree object pp par')
+                          end
+                      end
+                  else if Tree.is_object par then
+                    buf <- PatchDefs.decode_pointer_inplace (child_raw ++ [0]) ;;
+                    Ok (0, PatchDefs.put_subtree object pp
+                             (v_add_to_object (v_delete_from_object par (cstr buf) cs) (cstr buf) value))
+                  else Ok (9, object)
+              end
+          end
+      end
+  end.
+Proof.
+  unfold PatchDefs.finish_add. destruct pstr as [|c0 pstr0]; [done|]. set (pstr := c0 :: pstr0).
+  destruct (PatchDefs.last_slash pstr 0 None) as [i|]; [|done]. cbv zeta.
+  destruct (PointerDefs.get_item_from_pointer object (firstn i pstr) cs) as [pp|]; [|done].
+  destruct (Tree.subtree object pp) as [par|]; [|done].
+  destruct (Tree.is_array par).
+  - destruct (strcmp (skipn (S i) pstr) PatchDefs.s_dash =? 0); [done|].
+    destruct (PointerDefs.decode_array_index_from_pointer (skipn (S i) pstr)) as [idx|]; [|done].
+    unfold v_insert_in_array. by destruct (idx >? Z.of_nat (length (Tree.n_children par))).
+  - destruct (Tree.is_object par); [|done].
+    destruct (PatchDefs.decode_pointer_inplace (skipn (S i) pstr ++ [0])) as [buf| |]; cbn [bind]; [|done|done].
+    by rewrite v_delete_then_add.
+Qed.
+
+(** compose_patch: cJSON_CreateObject, three cJSON_AddItemToObject (the third with a duplicate of the
+    value; a NULL item adds nothing), cJSON_AddItemToArray *)
+Theorem compose_patch_uses patches operation path suffix value :
+  PatchDefs.compose_patch patches operation path suffix value =
+  let full_path := match suffix with
+                   | None => path
+                   | Some sfx => path ++ [47] ++ PointerDefs.encode_string_as_pointer sfx
+                   end in
+  let o1 := v_add_to_object PatchDefs.create_object PatchDefs.s_op (PatchDefs.create_string operation) in
+  let o2 := v_add_to_object o1 PatchDefs.s_path (PatchDefs.create_string full_path) in
+  let o3 := match value with
+            | None => o2
+            | Some v => match PatchDefs.cJSON_Duplicate v with
+                        | Some dv => v_add_to_object o2 PatchDefs.s_value dv
+                        | None => o2
+                        end
+            end in
+  patches ++ [o3].
+Proof.
+  unfold PatchDefs.compose_patch. cbv zeta. destruct value as [v|]; [|done].
+  by destruct (PatchDefs.cJSON_Duplicate v).
+Qed.
